@@ -371,6 +371,21 @@ Definition npos (ps : list scored) : nat := length (filter (fun p : scored => sn
 Definition nneg (ps : list scored) : nat := length (filter (fun p : scored => negb (snd p)) ps).
 Definition auc_spec (ps : list scored) : F := ofn (mw2 ps) /. (two *. (ofn (npos ps) *. ofn (nneg ps))).
 
+(* the grouping the ROC loop performs on sorted scores: a score opens a new group when it is more
+   than eps away from the score that opened the current group (the anchor, i.e. the last
+   threshold); [snap_sc] replaces every score by the anchor of its group *)
+Definition anchor_sc (eps : F) (a : option F) (s : F) : F :=
+  match a with
+  | None => s
+  | Some a0 => if ltb o eps (abs o (s -. a0)) then s else a0
+  end.
+Fixpoint snap_sc (eps : F) (a : option F) (l : list scored) : list scored :=
+  match l with
+  | [] => []
+  | p :: t => let a' := anchor_sc eps a (fst p) in (a', snd p) :: snap_sc eps (Some a') t
+  end.
+Definition grouped_sc (eps : F) (ps : list scored) : list scored := snap_sc eps None (roc_prepare ps).
+
 (* confusion-matrix scores as functions of integer cells c[i][j] (given as a matrix over F) *)
 Definition rowsum_s (m : mat) (i : nat) : F := sum_s (nth i m []).
 Definition colsum_s (m : mat) (j : nat) : F := sum_s (col m j).
